@@ -1,8 +1,16 @@
-(* C01 -- pinned statements only (generated once by tools/pin.py from `Check`, then fixed); proofs in RcP.v *)
+(* C01 -- pinned statements only; the statement text below is the definition of RcSpec.v written out (the proof is
+   `exact`, so it is checked to be convertible with it); proofs in RcP.v (strong side) and RcWeakP.v (weak side) *)
 From Coq Require Import ZArith List Bool Lia Arith.
 Import ListNotations.
-Require Import Params StateW DisposeW Rc RcSpec RcP.
+Require Import Params StateW DisposeW Rc RcSpec RcP RcWeakP.
 Local Open Scope Z_scope.
+
+Theorem C01_strong_owner_keeps_alive :
+  forall s0 sched, fresh_start s0 -> bounded_run s0 sched -> live_counted s0 sched ->
+  let s := mrun s0 sched in
+  forall o ob, geto s o = Some ob -> 0 < owners s o -> dropped ob = false /\ freed ob = false /\ destructed (word ob) = false.
+Proof. exact RcWeakP.C01. Qed.
+Print Assumptions C01_strong_owner_keeps_alive.
 
 Theorem C01_invariant_initial :
   forall s : state, fresh_start s -> Inv' s.
@@ -15,27 +23,6 @@ Theorem C01_invariant_preserved :
        tde_ok s -> counted_ok s -> bounded s -> bounded s' -> micro s t rec = Some (s', o) -> Inv' s'.
 Proof. exact RcP.micro_inv. Qed.
 Print Assumptions C01_invariant_preserved.
-
-Theorem C01_invariant_runs :
-  forall (sched : list (nat * list Z)) (s0 : state),
-       Inv' s0 -> bounded_run s0 sched -> live_counted s0 sched -> tde_run s0 sched -> Inv' (mrun s0 sched).
-Proof. exact RcP.mrun_inv_tde. Qed.
-Print Assumptions C01_invariant_runs.
-
-Theorem C01_tde :
-  forall (s0 : state) (sched : list (nat * list Z)),
-       run_hyps s0 sched ->
-       let s := mrun s0 sched in
-       forall (o : nat) (ob : obj),
-       geto s o = Some ob ->
-       0 < owners s o -> dropped ob = false /\ freed ob = false /\ destructed (word ob) = false.
-Proof. exact RcP.C01_tde. Qed.
-Print Assumptions C01_tde.
-
-Theorem C01_hypotheses_satisfiable :
-  run_hyps ex_s0 (ex_sched 20 9).
-Proof. exact RcP.ex_hyps. Qed.
-Print Assumptions C01_hypotheses_satisfiable.
 
 Theorem C01_example_state :
   let s := mrun ex_s0 (ex_sched 20 9) in
@@ -55,3 +42,19 @@ Theorem C01_example_state :
 Proof. exact RcP.ex_state. Qed.
 Print Assumptions C01_example_state.
 
+Theorem C01_invariant_runs :
+  forall (s0 : state) (sched : list (nat * list Z)),
+       fresh_start s0 -> bounded_run s0 sched -> live_counted s0 sched -> Inv' (mrun s0 sched).
+Proof. exact RcWeakP.mrun_inv. Qed.
+Print Assumptions C01_invariant_runs.
+
+Theorem C01_weak_invariant_preserved :
+  forall (s : state) (t : nat) (rec : list Z) (s' : state) (o : list Z),
+       Winv s -> Inv' s -> counted_ok s -> bounded s -> bounded s' -> micro s t rec = Some (s', o) -> Winv s'.
+Proof. exact RcWeakP.wmicro_inv. Qed.
+Print Assumptions C01_weak_invariant_preserved.
+
+Theorem C01_hypotheses_satisfiable :
+  fresh_start ex_s0 /\ bounded_run ex_s0 (ex_sched 20 9) /\ live_counted ex_s0 (ex_sched 20 9).
+Proof. exact RcWeakP.ex_theorem_hyps. Qed.
+Print Assumptions C01_hypotheses_satisfiable.
